@@ -4,7 +4,7 @@ Run from /verif/spec:  python3 mk_wc_cfgs.py"""
 BASE = dict(Bug='"none"', MaxSteps=5, MaxEditRun=3, Acts=None, EditPaths="AllEditPaths",
             Contents="{1, 2}", SymTargets='{"out"}', RootIgnore="{2, 3}", DirIgnore="{5}",
             TreeIds="{1, 3, 4, 8}", SparseIds="{1, 2, 3}", XP='"respect"', Strict="FALSE", Emit="FALSE")
-EDITS_ALL = ["Write", "Chmod", "Delete", "FileToDir", "DirToFile", "RmTree", "Symlink"]
+EDITS_ALL = ["Write", "Chmod", "Delete", "Mkfifo", "FileToDir", "DirToFile", "RmTree", "Symlink"]
 
 
 def acts(names):
@@ -35,6 +35,16 @@ C23 = dict(Acts=acts(["Write", "Chmod", "Delete", "FileToDir", "DirToFile", "Sym
            TreeIds="{7, 9}", SparseIds="{}", SymTargets='{"f"}', RootIgnore="{2, 3}", DirIgnore="{5}",
            MaxSteps=4, MaxEditRun=3)
 write("c23", ALLINV, **C23)
+# tracked paths one and two levels inside a wholly ignored directory, replaced by (empty / non-empty)
+# directories, special files, files again; exhaustive
+C23I = dict(Acts=acts(["Write", "Delete", "Mkfifo", "FileToDir", "DirToFile", "RmTree", "Snapshot", "CheckOut"]),
+            TreeIds="{11, 12}", SparseIds="{}", EditPaths="InsideIgnoredPaths", RootIgnore="{}", DirIgnore="{}",
+            Contents="{2}", MaxSteps=5, MaxEditRun=3)
+write("c23_ignored", ALLINV, **C23I)
+write("c23_ignored_thorough", ALLINV, **dict(C23I, MaxSteps=7, Contents="{1, 2}"))
+write("neg_snap_tracked_nonfile", ["Inv_C23"], **dict(C23I, Bug='"snap-tracked-nonfile"'))
+write("finding_notdir", ["Inv_C23"], **dict(C23I, Strict="TRUE", TreeIds="{12}", MaxSteps=3,
+                                          Acts=acts(["DirToFile", "Mkfifo", "Snapshot", "CheckOut"])))
 write("c23_thorough", ALLINV, **dict(C23, MaxSteps=5, RootIgnore="{1, 2, 3, 4}", DirIgnore="{5, 6}"))
 for bug in ("snap-ignore-tracked", "snap-no-dir-delete", "snap-skip-ignored-dir"):
     write("neg_" + bug.replace("-", "_"), ["Inv_C23"], **dict(C23, Bug='"%s"' % bug, MaxSteps=5))
@@ -80,9 +90,11 @@ write("finding_stale_state", ["Inv_C23"], **dict(C27, Strict="TRUE", MaxSteps=5,
 
 # ---- generators (simulation; behaviours of 10 steps with a wide alphabet)
 GEN = dict(MaxSteps=10, MaxEditRun=3, SymTargets='{"out", "f"}', RootIgnore="{1, 2, 3, 4, 7}", DirIgnore="{3, 5, 6}",
-           TreeIds="{1, 2, 3, 4, 5, 6, 7, 8, 9, 10}", SparseIds="{1, 2, 3, 4, 5, 6}", Emit="TRUE")
+           TreeIds="{1, 2, 3, 4, 5, 6, 7, 8, 9, 10, 11, 12, 13}", SparseIds="{1, 2, 3, 4, 5, 6}", Emit="TRUE")
 GI = ["EmitInv"]
-write("gen_c23", GI, view=False, **dict(GEN, Acts=acts(EDITS_ALL + ["Snapshot", "CheckOut"]), TreeIds="{3, 7, 8, 9, 10}", MaxEditRun=4))
+write("gen_c23_ignored", GI, view=False, **dict(GEN, Acts=acts(["Write", "Chmod", "Delete", "Mkfifo", "FileToDir", "DirToFile", "RmTree", "Snapshot", "CheckOut"]),
+                                               TreeIds="{9, 11, 12}", EditPaths="InsideIgnoredPaths", MaxSteps=8, MaxEditRun=3))
+write("gen_c23", GI, view=False, **dict(GEN, Acts=acts(EDITS_ALL + ["Snapshot", "CheckOut"]), TreeIds="{3, 7, 8, 9, 10, 11, 12, 13}", MaxEditRun=4))
 write("gen_c24", GI, view=False, **dict(GEN, Acts=acts(["CheckOut", "Snapshot", "SetSparse"]), MaxSteps=8))
 write("gen_c24_xignore", GI, view=False, **dict(GEN, Acts=acts(["CheckOut", "Snapshot", "SetSparse", "Chmod"]), MaxSteps=8, XP='"ignore"'))
 write("gen_c25", GI, view=False, **dict(GEN, Acts=acts(EDITS_ALL + ["CheckOut", "Snapshot"]), MaxEditRun=2))
